@@ -750,7 +750,13 @@ func (g *gen) run() {
 		if g.rng.Intn(4) == 0 {
 			target = hex.EncodeToString([]byte("erc20"))
 		}
-		if target != "" {
+		ibcTarget := false
+		if g.ibcOpen() && (k == 0 || g.rng.Intn(3) == 0) { // the deposit is forwarded over IBC (crosschain -> ICS-20 transfer; relative timeout)
+			target = hex.EncodeToString([]byte("fx/" + ibcPort + "/channel-" + fmt.Sprint(g.rng.Intn(2))))
+			ibcTarget = true
+			g.out.Count("send-to-fx:ibc-target")
+		}
+		if target != "" && !ibcTarget {
 			g.erc20Holders = append(g.erc20Holders, [2]string{contractAddr, fmt.Sprint(k % len(g.users))})
 		}
 		sender := g.ext[g.rng.Intn(len(g.ext))]
